@@ -45,7 +45,9 @@ SYS_POOL = [
     "(NH4)2SO4 -> 2 NH4+ + SO4-2; 1e-30",
     "H2O + H2O -> H3O+ + OH-; 1e-30",
 ]
-INTERLEAVE = ["plain", "comment-first", "blank-between", "comment-between", "trailing"]
+INTERLEAVE = ["plain", "comment-first", "blank-between", "comment-between", "trailing", "slashes", "two-markers"]
+# caller-chosen comment markers (comment_tokens=): "slashes" uses ('//',), "two-markers" ('#', '--') with both in the text
+COMMENT_TOKENS = {"slashes": ("//",), "two-markers": ("#", "--")}
 
 
 KEYS4 = ["A", "H+", "NO3-'", "(NH4)2SO4"]
@@ -272,6 +274,10 @@ def _sys_text(sel, how):
         out = [x for l in ls for x in (l, "")][:-1]
     elif how == "comment-between":
         out = [x for l in ls for x in (l, "  # " + l)][:-1]
+    elif how == "slashes":
+        out = ["// model"] + [x for l in ls for x in (l, "//" + l)]
+    elif how == "two-markers":
+        out = ["-- model"] + [x for l in ls for x in (l, "# " + l, "--" + l)]
     else:
         out = ls + ["", "# end", ""]
     return "\n".join(out)
@@ -316,7 +322,7 @@ def check_system(res, sel, how):
     res.evaluations += 1
     res.nontrivial += 1
     try:
-        rs = ReactionSystem.from_string(text)
+        rs = ReactionSystem.from_string(text, comment_tokens=COMMENT_TOKENS[how]) if how in COMMENT_TOKENS else ReactionSystem.from_string(text)
     except Exception as e:
         res.outcomes["SYSTEM-rejected"] += 1
         res.violation("C12|ReactionSystem.from_string|rejected", "ReactionSystem.from_string(%r) raised %s" % (text, type(e).__name__), case, "EXC %s" % type(e).__name__, "accepted")
@@ -399,6 +405,36 @@ def check_decimal(res, cls_name, shape, dec, ptxt):
         res.violation("C12|%s|str-roundtrip|decimal-coefficient" % cls_name, "%r prints as %r, which does not parse back to an equal %s (%r)" % (text, printed, cls_name, same), case, printed, text)
 
 
+def check_context_history(res, cls_name):
+    """a caller takes chempy's parsing context, redefines names in ITS copy and reads a line with it; a line read afterwards
+    with the default context is read exactly as written (the caller's redefinitions stay the caller's)"""
+    import chempy
+    from chempy.util.parsing import get_parsing_context
+
+    cls = getattr(chempy, cls_name)
+    arrow = "->" if cls_name == "Reaction" else "="
+    text = "A %s B; exp(log(2e-3))" % arrow
+    case = dict(kind="context-history", cls=cls_name)
+    res.states += 1
+    res.transitions += 3
+    res.nontrivial += 1
+    res.evaluations += 3
+    try:
+        first = float(cls.from_string(text).param)
+        ctx = get_parsing_context()
+        ctx["log"] = lambda x: 1.0
+        ctx["exp"] = lambda x: 42.0
+        mine = float(cls.from_string(text, globals_=ctx).param)
+        after = float(cls.from_string(text).param)
+        obs = (first, mine, after)
+    except Exception as e:
+        obs = "EXC %s: %s" % (type(e).__name__, str(e)[:80])
+    ok = isinstance(obs, tuple) and abs(obs[0] - 2e-3) < 1e-15 and obs[1] == 42.0 and abs(obs[2] - 2e-3) < 1e-15
+    res.outcomes["context-history-ok" if ok else "context-history-WRONG"] += 1
+    if not ok:
+        res.violation("C12|%s.from_string|parsing-context-history" % cls_name, "%r read with the default context, with a caller-modified copy of the context, and with the default context again: %r (expected 0.002, 42, 0.002)" % (text, obs), case, repr(obs), [2e-3, 42.0, 2e-3])
+
+
 def check_dont_check_history(res, cls_name):
     """the same decimal line read four times in a row with dont_check={'all_integral'} (and a two-line system carrying that
     keyword on both lines): every reading succeeds and gives the written coefficients; the class-level defaults stay as they were"""
@@ -453,6 +489,7 @@ def run_chunk(chunk, tier):
                 for ptxt in ("", "; 4.2e-3"):
                     check_decimal(res, chunk[1], shape, dec, ptxt)
         check_dont_check_history(res, chunk[1])
+        check_context_history(res, chunk[1])
         res.sample(dict(layer="DC", cls=chunk[1], coefficients=DEC, example="H2O2 -> 0.5 O2 + H2O; 4.2e-3"))
         return res
     if chunk[0] == "Y":
@@ -486,7 +523,9 @@ def run_chunk(chunk, tier):
 
 def replay(case):
     res = Result()
-    if case.get("kind") == "dont-check-history":
+    if case.get("kind") == "context-history":
+        check_context_history(res, case["cls"])
+    elif case.get("kind") == "dont-check-history":
         check_dont_check_history(res, case["cls"])
     elif case.get("kind") == "decimal":
         check_decimal(res, case["cls"], case["shape"], case["dec"], case["ptxt"])
